@@ -59,7 +59,7 @@ def run(ctx):
                'fits are compared with the numeric reference (C01/C02) per variant, which is what "agree" means up to the float32 memmap bound')
     ctx.require_events('file:checked', 'twin:compared', 'fit:checked', 'history:listing-made-before-adding-a-filter',
                        'file:checked:filter-added-after-listing', 'file:checked:table-rewritten-then-overwrite')     # (the sort_to_match probe is an extra observation point, not a required route)
-    ctx.require_regimes('sed:n_wav-equals-n_ap', 'gz', 'subdir', 'mixed-order', 'cube:desc', 'cube:asc', 'f32', 'n_ap>1', 'n_ap=1', 'memmap:on', 'memmap:off', 'filters>1', 'filters-used-before', 'names:long', 'cube-unit:Jy', 'apertures:not-in-AU', 'fitters:several-alive', 'cube:table-order-differs-from-cube')
+    ctx.require_regimes('single-aperture:with-a-real-aperture', 'sed:n_wav-equals-n_ap', 'gz', 'subdir', 'mixed-order', 'cube:desc', 'cube:asc', 'f32', 'n_ap>1', 'n_ap=1', 'memmap:on', 'memmap:off', 'filters>1', 'filters-used-before', 'names:long', 'cube-unit:Jy', 'apertures:not-in-AU', 'fitters:several-alive', 'cube:table-order-differs-from-cube')
     n_pkg = 7 if ctx.quick else 120
     for ip in range(n_pkg):
         n_m = int(rng.integers(1, 9))
@@ -84,6 +84,13 @@ def run(ctx):
             lsub = 0
         truth = convcheck.make_truth(rng, n_m, n_ap, n_w, names=names, f32=f32,
                                      params={'par1': np.arange(n_m) * 10.0 + 1, 'par2': -np.arange(n_m) - 0.5})
+        if n_ap == 1 and ip % 2 == 0:
+            # a single-aperture package whose SEDs carry a real aperture (not the 1e-30 placeholder): it is carried over like any other
+            truth.apertures = np.array([float(gen.loguniform(rng, 50.0, 5000.0))])
+            if f32:
+                truth.apertures = pkg.r32(truth.apertures)
+            ctx.regime('single-aperture:with-a-real-aperture')
+        adep = n_ap > 1
         rt = 1e-5 if f32 else 1e-9
         d1, d2 = ctx.newdir('v1_'), ctx.newdir('v2_')
         order = list(rng.permutation(n_m))
@@ -101,11 +108,11 @@ def run(ctx):
             apu1, apu2 = 'pc', 'cm'
         if apu1 != 'AU' or apu2 != 'AU':
             ctx.regime('apertures:not-in-AU')
-        pkg.build_v1(d1, t1, table_order=order, desc=desc, gz=gz, length_subdir=lsub, fmt='E' if f32 else 'D',
+        pkg.build_v1(d1, t1, table_order=order, aperture_dependent=adep, desc=desc, gz=gz, length_subdir=lsub, fmt='E' if f32 else 'D',
                      param_gz=bool(rng.random() < 0.3), pad_names=bool(rng.random() < 0.3), ap_unit=apu1)
         cdesc = bool(rng.random() < 0.5)
         cunit = 'mJy' if f32 else ('Jy' if slot == 1 else str(rng.choice(['mJy', 'Jy', 'uJy'])))
-        pkg.build_v2(d2, truth, descending_wav=cdesc, dtype='f4' if f32 else 'f8', unit=cunit, ap_unit=apu2)
+        pkg.build_v2(d2, truth, aperture_dependent=adep, descending_wav=cdesc, dtype='f4' if f32 else 'f8', unit=cunit, ap_unit=apu2)
         ctx.regime('cube-unit:' + cunit)
         ctx.regime('cube:desc' if cdesc else 'cube:asc')
         ctx.regime('n_ap>1' if n_ap > 1 else 'n_ap=1')
@@ -144,7 +151,7 @@ def run(ctx):
             # a cube package whose parameter table lists the models in another order than the cube: it is either refused, or
             # every row still holds the flux computed from the SED of the model it is labelled with
             d3 = ctx.newdir('v2p_')
-            pkg.build_v2(d3, truth, descending_wav=cdesc, dtype='f4' if f32 else 'f8', unit=cunit)
+            pkg.build_v2(d3, truth, aperture_dependent=adep, descending_wav=cdesc, dtype='f4' if f32 else 'f8', unit=cunit)
             for fn_ in os.listdir(d3):
                 if fn_.startswith('parameters.fits'):
                     os.remove(os.path.join(d3, fn_))
